@@ -218,7 +218,7 @@ REQUIRED = {
     "C17": [("model MC_Version", 2), ("replay of", 1), ("concurrent version-word executions", 3)],
     "C18": [("YkOrder theorems", 1), ("replay of", 1), ("mode=boundary", 1)],
     "C19": [("YkPerm exhaustive", 1), ("replay of", 1), ("linearization search", 12)],
-    "C20": [("exhaustive sequential model", 1), ("trace seed=", 6), ("valmix=1", 2), ("ascend=", 1)],
+    "C20": [("exhaustive sequential model", 1), ("trace seed=", 6), ("valmix=1", 2), ("ascend=", 1), ("inlpct=", 1)],
 }
 
 
